@@ -352,6 +352,7 @@ impl Monitor for C08m {
         }
         let region = if pool.tick_current_index < pp.tick_lower_index { "below" } else if pool.tick_current_index < pp.tick_upper_index { "inside" } else { "above" };
         acc.situation(format!("{n}:{region}:L{}", rnd::bitlen(l) / 16));
+        acc.count(&format!("liquidity_bits_{:03}_{:03}", rnd::bitlen(l) / 16 * 16, rnd::bitlen(l) / 16 * 16 + 15));
     }
 }
 
